@@ -18,7 +18,7 @@ re-ordering of the conjuncts in the source does not break it. -/
 theorem isIdle_interprets_source (k : KState) :
     isIdle k = true ↔ ∀ t ∈ isIdleSrc, evalIdleTag k t = true := by
   simp only [isIdleSrc, List.mem_cons, List.not_mem_nil, or_false, forall_eq_or_imp, forall_eq,
-    evalIdleTag, isIdle, pressedKeysMeansNotIdle, Bool.and_eq_true, and_true, true_and]
+    evalIdleTag, isIdle, isIdleBase, pressedKeysMeansNotIdle, Bool.and_eq_true, and_true, true_and]
   apply Iff.of_eq
   ac_rfl
 
